@@ -79,6 +79,19 @@ pub fn j_count(c: i128, ts: TimeScale, dt: Option<(i64, i128)>, out: &mut Local)
             let want_tuple = (y as i32, m as u8, d as u8, h as u8, mi as u8, s as u8, ns as u32);
             let doy_i = day_of_year(y, m, d);
             let want_diy = (doy_i - 1) as i128 * NS_DAY + tod;
+            // the YYYY text form is specified for years 0001-9999; outside, only fields, accessors and the inverse are judged
+            let text_pinned = (1..=9999).contains(&y);
+            if !text_pinned {
+                if tup.as_ref().map(|(t, _)| *t != want_tuple).unwrap_or(false) {
+                    out.viol("c09.fields", format!("tuple-wrong,{cls}"), args, format!("{want_tuple:?}"), format!("{:?}", tup.unwrap().0));
+                } else if yr as i64 != y || mn as i64 != m - 1 || diy != want_diy || back != Ok((c, ts)) {
+                    out.viol("c09.accessors", format!("far-year-accessor-or-inverse-wrong,{cls}"), args, format!("{y} month {m}, {want_diy} ns in year, rebuilds {c}"), format!("{yr} month#{mn} {diy} {back:?}"));
+                } else {
+                    out.ok(6, true, (ts as u64) | 1 << 12);
+                    out.dontcare += 1;
+                }
+                return;
+            }
             if shown != want {
                 out.viol("c09.display", format!("display-wrong,{cls}"), args, want, shown);
             } else if gs != shown {
